@@ -62,6 +62,12 @@ def rand_gene_layer_case(rng, root):
         c = S.rand_case(random.Random(rng.getrandbits(64)), glen=rng.choice([60, 120, 300]) if root != "coll" else rng.choice([60, 120]),
                         shape=shape if root != "coll" else rng.choice(["genes", "mixed", "mixed", "features", "mixed-variants", "mixed-variants", "empty"]))
         coll, parent = c["coll"], c["parent"]
+        if coll.get("sequence_name") is None and rng.random() < 0.7:
+            # most objects get a sequence name: GFF3 export refuses without one
+            coll["sequence_name"] = parent["seqname"]
+            for g in coll["genes"]:
+                for t in g["transcripts"]:
+                    t["sequence_name"] = parent["seqname"]
         seqname = coll.get("sequence_name")
         spec = None
         if root == "coll":
@@ -515,7 +521,7 @@ def fixed_catalogue(obj, case, path, rebuild):
     add("str", lambda o, a: str(o))
     add("repr", lambda o, a: repr(o))
     add("==fresh-twin", lambda o, a: (o == rebuild(path), rebuild(path) == o, o != rebuild(path)))
-    if cn != "Codon":
+    if cn not in ("Codon", "Parent"):
         add("len", lambda o, a: len(o))
 
     if cn in ("SingleInterval", "CompoundInterval", "_EmptyLocation"):
@@ -684,10 +690,12 @@ def _interval_catalogue(obj, cn, case, path, rebuild):
 
     if leaf:
         add("export_qualifiers(pq)", lambda o, a: o.export_qualifiers(a["pq"]), _pq, hot=True)
-        add("to_gff(P,pq)", lambda o, a: o.to_gff(parent="P1", parent_qualifiers=a["pq"]), _pq, hot=True)
-        add("to_gff(P,pq,chunk-relative)", lambda o, a: o.to_gff("P1", a["pq"], chromosome_relative_coordinates=False), _pq)
-        add("to_bed12(score,guid)", lambda o, a: o.to_bed12(score=5, name="guid"))
-        add("to_bed12(chunk-relative)", lambda o, a: o.to_bed12(chromosome_relative_coordinates=False))
+        if cn != "VariantInterval":  # VariantInterval.to_gff / to_bed12 and CDSInterval.to_bed12 are not implemented upstream
+            add("to_gff(P,pq)", lambda o, a: o.to_gff(parent="P1", parent_qualifiers=a["pq"]), _pq, hot=True)
+            add("to_gff(P,pq,chunk-relative)", lambda o, a: o.to_gff("P1", a["pq"], chromosome_relative_coordinates=False), _pq)
+        if cn in ("TranscriptInterval", "FeatureInterval"):
+            add("to_bed12(score,guid)", lambda o, a: o.to_bed12(score=5, name="guid"))
+            add("to_bed12(chunk-relative)", lambda o, a: o.to_bed12(chromosome_relative_coordinates=False))
         add("sequence_pos_to_feature(start)", lambda o, a: o.sequence_pos_to_feature(lo))
         add("sequence_pos_to_feature(end-1)", lambda o, a: o.sequence_pos_to_feature(hi - 1))
         add("feature_pos_to_sequence(0)", lambda o, a: o.feature_pos_to_sequence(0))
@@ -705,8 +713,14 @@ def _interval_catalogue(obj, cn, case, path, rebuild):
         add("chunk_relative_location.reverse_strand", lambda o, a: o.chunk_relative_location.reverse_strand(), hot=True)
         add("chunk_relative_blocks[*].extract_sequence", lambda o, a: [b.extract_sequence() for b in o.chunk_relative_blocks])
     if cn in ("TranscriptInterval", "FeatureInterval"):
-        add("intersect(left-half)", lambda o, a: o.intersect(SingleInterval(lo, max(lo + 1, mid), Strand.PLUS)))
-        add("intersect(right-half,new_guid)", lambda o, a: o.intersect(SingleInterval(mid, hi, Strand.PLUS), new_guid=True, new_qualifiers={"k": ["v"]}))
+        try:
+            cs, ce = obj.chunk_relative_start, obj.chunk_relative_end
+        except Exception:  # noqa: BLE001 - e.g. an interval sliced away by its chunk
+            cs, ce = 0, 1
+        cm = (cs + ce) // 2
+        add("intersect(left-half)", lambda o, a: o.intersect(SingleInterval(cs, max(cs + 1, cm), Strand.PLUS, parent=o.chunk_relative_location.parent)))
+        add("intersect(right-half,quals)", lambda o, a: o.intersect(SingleInterval(cm, max(cm + 1, ce), Strand.MINUS, parent=o.chunk_relative_location.parent),
+                                                                     new_qualifiers=a["q"]), lambda: {"q": {"k": ["v", "w"], "note": ["n"]}})
 
     named, storm = _windows(lo, hi)
     if cn == "CDSInterval":
